@@ -337,6 +337,12 @@ def honoured(chk, rng, n):
                           {"cMaximumDrop": -2.0, "cMinimumVelocity": 1500.0}])
         p2 = shots.gen_shot(rng, winds=0, look=0.0)
         p2["mv_fps"], p2["alt_ft"] = 2600.0, 1000.0
+        if i % 2:
+            # a floor this calculator was given that lies ABOVE the launch point, and the barrel pointing up: the setting governs
+            # from the first step on (a default calculator flies on)
+            lim = rng.choice([{"cMinimumAltitude": 1005.0}, {"cMaximumDrop": 1.0}, {"cMinimumAltitude": 1200.0, "cMaximumDrop": 40.0}])
+            p2["rel_rad"] = rng.choice([0.02, 0.2])
+            chk.stratum("limit_above_the_launch_point_barrel_up")
         base = {"shot": p2, "range_ft": 3000.0, "unit": "Foot", "step_ft": 300.0}
         tid += 1
         a = scen.run_fire({**base, "cfg": {"max_calc_step_size_feet": 2.0, **lim}, "tid": tid}, tid)
@@ -439,7 +445,7 @@ def run(chk: core.Check, replay=None) -> None:
         replay_names(chk, cases, td)
     chk.sample({"name_case": cases[7]})
     chk.require_strata(["cfg_settings_dict_reused", "cfg_SetGlobalStep", "cfg_ResetGlobals", "cfg_NewCalc", "cfg_Use", "cfg_nonpositive_global_step",
-                        "cfg_use_with_global_changed", "gravity_custom", "air_speed_far_above_ground_speed", "zeroing_path_settings", "limits_custom", "names_parse_unit", "names_set_pref",
+                        "cfg_use_with_global_changed", "gravity_custom", "limit_above_the_launch_point_barrel_up", "air_speed_far_above_ground_speed", "zeroing_path_settings", "limits_custom", "names_parse_unit", "names_set_pref",
                         "names_value_with_prefix", "names_value_preferred_name", "names_config_file_preferred",
                         "names_config_file_step_units", "names_unknown"])
     chk.exhaustive = False
